@@ -31,11 +31,30 @@ NASTY = ['"', '\\', "'", '\n', '\r', '\t', '\b', '\f', ' ', '<', '>', '{', '}', 
          '�', '\U0001F600', '\U0010FFFF', '中', 'я', '.', '0', '-', '+', 'e']
 
 
+LONE = ['\r', '\n', '\t', '"', "'", '\\', '\b', '\f', '%', ' ', '<', '>', '{', '}', '^', '`', '|', '#', '?', '/', ':', '@', '&', '+', '=', ';', ',', '~', '.']
+TOKENS = ['%41', '%2F', 'a%2Fb', '%C3%A9', '100%25', '%zz', '%4', '%%', 'x%20y', '\\n', '\\u0041', '\\"', '\\\\', '&lt;', '&#65;',
+          '1.0', '10.0', '1e3', '+5', '-0', '1.', '.5', ' 7 ', '007', 'TRUE', 'False', '2020-01-01T00:00:00', '2020-01-01 00:00:00',
+          'http://a/b', 'a b', 'a  b', ' a', 'a ', '_:b', '<x>', '"x"', '"x"@en', '^^', '{id}', '\\{', 'zzyy_xxww', '\r\n']
+
+
 def rand_value(rng, kind='any', maxlen=8):
-    """a cell value: `plain` (alnum), `any` (every code point class), `label` (blank-node-label safe)"""
+    """a cell value: `plain` (alnum), `any` (every code point class), `label` (blank-node-label safe).
+    `any` also produces, with fixed small probabilities, (a) otherwise plain values with exactly ONE special character
+    (changes that skip a transformation unless some other special character is present only show on these) and
+    (b) values built around multi-character tokens (well-formed and ill-formed percent triplets, backslash sequences,
+    numeric and boolean spellings, term-like text)."""
     n = rng.randrange(1, maxlen + 1) if kind != 'any' or rng.random() > 0.03 else 0
     if kind == 'plain' or kind == 'label':
         return ''.join(rng.choice('abcXYZ019') for _ in range(max(n, 1)))
+    r0 = rng.random()
+    if r0 < 0.10:
+        base = [rng.choice('abcxyzAZ019') for _ in range(rng.randrange(0, maxlen))]
+        base.insert(rng.randrange(0, len(base) + 1), rng.choice(LONE))
+        return ''.join(base)
+    if r0 < 0.20:
+        pre = ''.join(rng.choice('abcAZ019-._~') for _ in range(rng.randrange(0, 3)))
+        suf = ''.join(rng.choice('abcAZ019-._~') for _ in range(rng.randrange(0, 3)))
+        return pre + rng.choice(TOKENS) + (rng.choice(TOKENS) if rng.random() < 0.2 else '') + suf
     out = []
     for _ in range(n):
         r = rng.random()
